@@ -80,7 +80,7 @@ def run(chk):
                 chk.count(('construct', r['spec']['seed']), bucket='unsupported:dw_cat')
                 n_unsup += 1
             else:
-                chk.violation('C09:constructor-raises', 'PIT() raises on a supported net: ' + r['construct_error'],
+                chk.violation('C09:' + pitcheck.raise_kind(r), 'PIT() raises on a supported net: ' + r['construct_error'],
                               dict(pitcheck.case_id(r), kind='net'))
             continue
         for a, head, rows in assigns:
